@@ -1,5 +1,7 @@
 import NflowsModel.Lemmas.ChangeOfVar
 import NflowsModel.Lemmas.Gaussian
+import NflowsModel.Lemmas.TailsWhole
+import NflowsModel.Properties.C05
 import Mathlib.Analysis.Calculus.Deriv.Comp
 import Mathlib.Analysis.Calculus.FDeriv.Comp
 import Mathlib.LinearAlgebra.Determinant
@@ -125,6 +127,51 @@ def progN {n : ℕ} : List (DiffeoN n) → DiffeoN n
 theorem flow_normalised_progN {n : ℕ} (parts : List (DiffeoN n)) (p : (Fin n → ℝ) → ℝ) (hp : ∫ z, p z = 1) :
     ∫ x, p ((progN parts).T x) * Real.exp ((progN parts).ld x) = 1 :=
   flow_normalised_nd _ _ _ p (progN parts).bij (progN parts).deriv (progN parts).ld_eq hp
+
+/-! ## instantiation with EXECUTED programs: the abstract `Diffeo1` parts above are inhabited by what the driver runs -/
+
+/-- the executed `StandardNormal([1]).log_prob` row (the list program of `Core/Density.lean` at ℝ) is a normalised density on ℝ -/
+theorem stdNormal1_exec_normalised (e : Float → ℝ) :
+    ∫ z : ℝ, Real.exp (NF.Density.stdNormalRow (NF.realX e) 1 [z]) = 1 := by
+  have h : ∀ z : ℝ, Real.exp (NF.Density.stdNormalRow (NF.realX e) 1 [z]) = ProbabilityTheory.gaussianPDFReal 0 1 z := by
+    intro z
+    have := Properties.C05.stdNormal_logp_eq e (D := 1) (fun _ => z)
+    simpa using this
+  simp_rw [h]
+  exact ProbabilityTheory.integral_gaussianPDFReal_eq_one 0 (by norm_num)
+
+/-- the executed rational-quadratic spline with linear tails (`rqSplineTails … false`, the element of the library's neural
+    spline flows) IS a `Diffeo1`: a bijection of ℝ whose derivative at every real point is `exp` of the log-abs-det it returns -/
+noncomputable def rqTailsDiffeo (e : Float → ℝ) (tb minW minH minD beta : Float) (uw uh ud : List ℝ)
+    (hv : TailsWhole.RQTailsValid e tb minW minH minD beta uw uh ud) (hp : TailsWhole.PadExact e minD beta) : Diffeo1 where
+  f := TailsWhole.valT e tb minW minH minD beta uw uh ud
+  ld := TailsWhole.ldT e tb minW minH minD beta uw uh ud
+  bij := TailsWhole.valT_bijective hv
+  deriv := TailsWhole.valT_hasDerivAt_all hv hp
+
+/-- **End to end, one dimension**: `Flow(unconstrained RQ spline, StandardNormal).log_prob`, assembled from the two EXECUTED
+    programs exactly as flows/base.py:42-49 does (`base.log_prob(transform(x)) + logabsdet`), is a normalised probability density
+    — for every number of bins, every unnormalised parameter vector and every tail bound. -/
+theorem executed_rq_tails_flow_normalised (e : Float → ℝ) (tb minW minH minD beta : Float) (uw uh ud : List ℝ)
+    (hv : TailsWhole.RQTailsValid e tb minW minH minD beta uw uh ud) (hp : TailsWhole.PadExact e minD beta) :
+    ∫ x : ℝ, Real.exp (NF.Density.stdNormalRow (NF.realX e) 1 [TailsWhole.valT e tb minW minH minD beta uw uh ud x]
+        + TailsWhole.ldT e tb minW minH minD beta uw uh ud x) = 1 :=
+  flow_logprob_normalised_1d _ _ (fun z => NF.Density.stdNormalRow (NF.realX e) 1 [z])
+    (TailsWhole.valT_bijective hv) (TailsWhole.valT_hasDerivAt_all hv hp) (stdNormal1_exec_normalised e)
+
+/-- … and so is every composite of such executed elements (any number of spline layers with their own parameters, in any order),
+    over the executed standard-normal base -/
+theorem executed_composite_flow_normalised (e : Float → ℝ) (parts : List Diffeo1) :
+    ∫ x : ℝ, Real.exp (NF.Density.stdNormalRow (NF.realX e) 1 [(prog parts).f x] + (prog parts).ld x) = 1 :=
+  flow_normalised_prog parts (fun z => NF.Density.stdNormalRow (NF.realX e) 1 [z]) (stdNormal1_exec_normalised e)
+
+example (e : Float → ℝ) (tb minW minH minD beta : Float) (uw uh ud uw' uh' ud' : List ℝ)
+    (hv : TailsWhole.RQTailsValid e tb minW minH minD beta uw uh ud) (hv' : TailsWhole.RQTailsValid e tb minW minH minD beta uw' uh' ud')
+    (hp : TailsWhole.PadExact e minD beta) :
+    ∫ x : ℝ, Real.exp (NF.Density.stdNormalRow (NF.realX e) 1
+        [(prog [rqTailsDiffeo e tb minW minH minD beta uw uh ud hv hp, rqTailsDiffeo e tb minW minH minD beta uw' uh' ud' hv' hp]).f x]
+        + (prog [rqTailsDiffeo e tb minW minH minD beta uw uh ud hv hp, rqTailsDiffeo e tb minW minH minD beta uw' uh' ud' hv' hp]).ld x) = 1 :=
+  executed_composite_flow_normalised e _
 
 /-- `LogTanh`: with the constructor's `beta = exp((tanh c - alpha log c) / alpha)` the logarithmic tail
     `alpha * log(beta * x)` joins the `tanh` part continuously at the cut point `c` (so the transform is a bijection of
